@@ -1,2 +1,3 @@
 -- Root of the MypyVerif library: every property file is imported here so `lake build` checks all.
 import MypyVerif.Props.C16
+import MypyVerif.Props.C02
